@@ -711,21 +711,57 @@ fn gen_spec(rng: &mut Rng, i: usize, focus_unsafe: bool) -> Value {
         points.push(json!({"tal": rng.below(2), "child": rng.chance(1, 3), "roas": roas,
             "routers": routers, "aspas": aspas}));
     }
-    // provider sets around the encoding limit (16379 / 16380 / 16381)
+    // Provider sets around the encoding limit for customer 65100: 1..4 objects
+    // drawn from a small menu (so the signed 16k-provider objects are built once
+    // and reused), the union crossing 16380 after the 1st+2nd object, after a
+    // later one, only with the last, or never; small and large tails. Objects
+    // are spread over the points in generation order; other orders come from
+    // the permuted re-runs.
     if !focus_unsafe && i % 23 == 7 {
-        let base = 100_000u32;
-        let first = match rng.below(3) { 0 => MAX_PROVIDERS - 2, 1 => MAX_PROVIDERS - 1, _ => MAX_PROVIDERS } as u32;
-        let k = points.len();
-        let extra: Vec<u32> = match rng.below(4) {
-            0 => vec![], 1 => vec![base + first], 2 => vec![base + first, base + first + 1],
-            _ => vec![base + 5],
+        let b = 100_000u32;
+        let big: [(u32, u32); 3] = [(b, b + 16377), (b, b + 16378), (b, b + 16379)];   // 16378, 16379, 16380
+        let half: [(u32, u32); 3] = [(b, b + 8999), (b + 8000, b + 16500), (b + 9000, b + 16379)];
+        let tails: [Vec<u32>; 6] = [
+            vec![b + 16380], vec![b + 16381], vec![b + 16380, b + 16381], vec![b + 5], vec![5], vec![200_000, 200_001],
+        ];
+        let r = |x: (u32, u32)| json!([[x.0, x.1]]);
+        let t = |rng: &mut Rng| json!(rng.pick(&tails).clone());
+        let objs: Vec<Value> = match rng.below(10) {
+            0 => vec![r(*rng.pick(&big))],
+            1 => vec![r(*rng.pick(&big)), t(rng)],
+            // overflow (possibly) with 1st+2nd, then more objects follow
+            2 => vec![r(big[2]), t(rng), t(rng)],
+            3 => vec![r(*rng.pick(&big)), t(rng), t(rng), t(rng)],
+            // small objects first, the big one in the middle or last
+            4 => vec![t(rng), r(*rng.pick(&big)), t(rng)],
+            5 => vec![t(rng), t(rng), r(*rng.pick(&big))],
+            // two large halves (union 16501 / 16380 / 16500) and small tails
+            6 => vec![r(half[0]), r(half[1]), t(rng)],
+            7 => vec![r(half[0]), r(half[2]), t(rng), t(rng)],
+            8 => vec![t(rng), r(half[0]), r(half[1]), t(rng)],
+            // never overflows: inside tails only
+            _ => vec![r(big[0]), json!([b + 5]), json!([b + 7, b + 9]), json!([b + 16377])],
         };
-        let p0 = rng.below(k as u64) as usize;
-        points[p0]["aspas"].as_array_mut().unwrap()
-            .push(json!({"c": 65100, "p": [[base, base + first - 1]]}));
-        if !extra.is_empty() {
-            let p1 = rng.below(k as u64) as usize;
-            points[p1]["aspas"].as_array_mut().unwrap().push(json!({"c": 65100, "p": extra}));
+        let k = points.len();
+        for o in objs {
+            let at = rng.below(k as u64) as usize;
+            points[at]["aspas"].as_array_mut().unwrap().push(json!({"c": 65100, "p": o}));
+        }
+    }
+    // The same item three or four times (router certificate, ROA address with
+    // implicit/explicit max length) spread over the points.
+    if !focus_unsafe && i % 11 == 3 {
+        let k = points.len();
+        let router = json!({"key": rng.below(ROUTER_KEYS as u64), "asns": [[64500 + rng.below(3), 64503]]});
+        let (p, m, asn) = if seen.is_empty() {
+            let p = gen_prefix(rng, &an, &cfg); let m = gen_max(rng, &p); (p, m, 64496)
+        } else { rng.pick(&seen).clone() };
+        for j in 0..3 + rng.below(2) {
+            let at = rng.below(k as u64) as usize;
+            points[at]["routers"].as_array_mut().unwrap().push(router.clone());
+            let m = match (m, j % 2) { (None, 1) => Some(p.len() as u8), (Some(x), 1) if x as usize == p.len() => None, (m, _) => m };
+            let at = rng.below(k as u64) as usize;
+            points[at]["roas"].as_array_mut().unwrap().push(json!({"asn": asn, "addrs": [[p.text(), m]]}));
         }
     }
     let mut rejected = Vec::new();
@@ -807,14 +843,22 @@ fn run_inputs(ctx: &mut Ctx, comp: &str, inputs: Vec<Value>) {
         if comp == "c09" { oracle_c09(ctx, &input, &spec, &served) } else {
             oracle_c08(ctx, &input, &spec, &served)
         }
-        // order independence: the same payload in another processing order
+        // order independence: the same payload in other processing orders (more of
+        // them when some key receives three or more contributions)
+        let mut per_customer: BTreeMap<u32, usize> = BTreeMap::new();
+        for p in &spec.points { for a in &p.aspas { *per_customer.entry(a.customer).or_default() += 1 } }
+        let orders = if per_customer.values().any(|n| *n >= 3) { 8 } else { 1 };
+        if orders > 1 { ctx.count("three-or-more-aspas-for-a-customer") }
         let mut rng = Rng(input["perm"].as_u64().unwrap_or(1) ^ 0xabcdef);
-        match run_real(&fx, &spec, Some(&mut rng)) {
-            Ok((again, _)) => if again != served {
-                ctx.oracle_fail("order-dependent", "another processing order of the same payload gives another snapshot",
-                    &input, json!({"first": served.to_json(), "permuted": again.to_json()}));
+        for _ in 0..orders {
+            match run_real(&fx, &spec, Some(&mut rng)) {
+                Ok((again, _)) => if again != served {
+                    ctx.oracle_fail("order-dependent", "another processing order of the same payload gives another snapshot",
+                        &input, json!({"first": served.to_json(), "permuted": again.to_json()}));
+                    break
+                }
+                Err(e) => { ctx.oracle_fail("run-failed", &e, &input, json!(e)); break }
             }
-            Err(e) => ctx.oracle_fail("run-failed", &e, &input, json!(e)),
         }
 
         // statistics
@@ -827,8 +871,6 @@ fn run_inputs(ctx: &mut Ctx, comp: &str, inputs: Vec<Value>) {
         let at_limit = spec.points.iter().flat_map(|p| p.roas.iter()).flat_map(|r| r.addrs.iter()).filter(|(p, _)| {
             (if p.v4 { spec.cfg.l4 } else { spec.cfg.l6 }).map(|l| p.len() == l as usize).unwrap_or(false)
         }).count();
-        let mut per_customer: BTreeMap<u32, usize> = BTreeMap::new();
-        for p in &spec.points { for a in &p.aspas { *per_customer.entry(a.customer).or_default() += 1 } }
         let merged = per_customer.values().filter(|n| **n > 1).count();
         let mut union_sizes: BTreeMap<u32, BTreeSet<u32>> = BTreeMap::new();
         for p in &spec.points { for a in &p.aspas { union_sizes.entry(a.customer).or_default().extend(a.providers.iter()) } }
@@ -858,12 +900,12 @@ pub fn run_c09(ctx: &mut Ctx) {
         addresses built around one IPv4 and one IPv6 anchor prefix (equal, covering, nested, siblings, \
         lengths at limit-1/limit/limit+1, /31 /32 /33 /127 /128, duplicates across points and TALs with \
         implicit vs explicit max length), router certificates (4 keys, AS blocks), ASPAs (3 customers, \
-        provider sets 0..4; every 23rd case a customer whose union has 16378..16382 providers), 0..2 \
+        provider sets 1..5; every 23rd case customer 65100 with 1..4 objects from a fixed menu of 16378/16379/16380-provider and half-size sets plus small tails, the union crossing 16380 after the 1st+2nd object, later, only with the last, or never; every 11th case the same router certificate and the same ROA address 3..4 times across points), 0..2 \
         rejected CA certificates with blocks positioned relative to the VRPs, 0..2 SLURM files with \
         overlapping prefix/BGPsec filters and assertions (also asserting filtered or unsafe VRPs), every \
         option combination; all objects are real (ROA/ASPA contents from rpki's builders, signed \
         certificates), fed through ProcessRun/ProcessPubPoint into a real ValidationReport and \
-        into_snapshot with real LocalExceptions; each case is run a second time in a permuted order. \
+        into_snapshot with real LocalExceptions; each case is run again in a permuted order (8 orders when a customer has three or more ASPA objects). \
         non-trivial = every case; distinct by (policy, #points, #served origins<=6, has-unsafe, \
         has-over-limit, #filters<=2, #assertions<=2, #keys<=3, #aspas<=3)".into();
     let inputs = match ctx.replay_inputs() {
